@@ -201,6 +201,8 @@ func runC17(c *an.Ctx) {
 		checkSyncRoundTrip(c, "C17.c", syncFn, p.Method("store", "Store", "flushLoop"))
 		checkPendingFirst(c, "C17.f")
 		checkDeleteSideAdvanceGuarded(c, "C17.a")
+		checkPointerStoreNeedsChange(c, "C17.b")
+		checkPendingAppendKeepsBothMaps(c, "C17.d")
 	}
 
 	// --- C17.d guarded-by on the pending batch
